@@ -129,7 +129,6 @@ class SReal:
     constant (then no z3 term is needed until asked for)."""
 
     __slots__ = ("_t", "c")
-    __array_priority__ = 1000.0
     __hash__ = None  # type: ignore[assignment]
 
     def __init__(self, t=None, c=None):
